@@ -52,7 +52,11 @@ func init() {
 		tp := lang.NewTestProcess()
 		defer lang.GlobalFIDs.Deregister(tp.Id)
 		for i, s := range inputs {
-			runes := []rune(s)
+			// exact capacity: spare capacity would hide a slice that runs past the end
+			tmp := []rune(s)
+			runes := make([]rune, len(tmp))
+			copy(runes, tmp)
+			runes = runes[:len(runes):len(runes)]
 			func() {
 				defer c20Recover(&out[i].BlockPanic)
 				_, err := lang.ParseBlock(runes)
